@@ -22,7 +22,7 @@ package referenceclient
 //@   modifies wrOut, bufContent, cmpDst, cmpBuf, cmpBase, cmpBaseB, rawErr
 //@   ensures @body rawErr[0] == nil || !(typeis(r.rawRequest.Body, *conformancev1.RawHTTPRequest_Unary) || typeis(r.rawRequest.Body, *conformancev1.RawHTTPRequest_Stream)) ==>
 //@        streq(wrOut[box(pipeWriter)], old(wrOut[box(pipeWriter)]) + old(reqBodyWire(r.rawRequest)))
-//@   ensures @others forall w io.Writer :: w != box(pipeWriter) ==> wrOut[w] == old(wrOut[w])
+//@   ensures @others forall w io.Writer :: w != box(pipeWriter) && !fresh(w) ==> wrOut[w] == old(wrOut[w])
 
 // The goroutine that drains and closes the original request body.
 //@ func (*rawRequestSender).RoundTrip$2$1
